@@ -12,6 +12,7 @@ DECIDED = ("R1 the accessor computes SOLUTIONS[((occ & mask) *wrapping factor >>
            "R4 mask = inner squares of the square's rays, hence raycast(sq, occ) = raycast(sq, occ & mask) for all occ. "
            "R1-R4 together give the statement for all 64 x 2^64 inputs.")
 DECIDED = DECIDED + " R1 also: every arm of rook_moves / bishop_moves (including the arm the analysed configuration folds away under `cfg!(debug_assertions)`) reads only that slider's own MAGIC/SOLUTIONS tables."
+DECIDED = DECIDED + ' R90 premises re-run here: C18 R5, R8 (nth); C01 R2, R5 (occupancy handed to the lookups).'
 NOT_DECIDED = "nothing of the statement is left undecided; trusted: the 30-line ray caster in analysis/chessref.py and the compiler's evaluation of the statics"
 EXPLANATION = ("The table bytes come from the compiler's evaluation of the `static` items (what ends up in .rodata); the accessor formula "
                "is read off the MIR of rook_moves/bishop_moves as a normalised dataflow term. The product (occ & mask) * factor is an arbitrary u64, "
@@ -136,6 +137,15 @@ def _mask_bit(P):
     b = bytearray(bytes.fromhex(v["hex"]))
     b[0] ^= 0x02
     v["hex"] = b.hex()
+
+
+@rule("C08.R90", "premises shared with other properties: C18 (C18.R5, C18.R8); C01 (C01.R2, C01.R5)")
+def r_premises_shared(ctx):
+    """The blocker subsets are enumerated with BitBoardIter::nth (generator side), and the lookups are only as good as the occupancy their
+    consumers hand in; these rules of other properties are re-run here so that this property's own check reports their breakage too."""
+    from analysis.runner import premise
+    premise(ctx, "C18", {"C18.R5", "C18.R8"}, "blocker subsets are enumerated with BitBoardIter::nth; it no longer selects the n-th member")
+    premise(ctx, "C01", {"C01.R2", "C01.R5"}, "the consumers of rook_moves / bishop_moves no longer pass the occupancy the rules prescribe")
 
 
 CONTROLS = [
